@@ -30,6 +30,7 @@ type Req struct {
 	Origin []string
 	ACRM   []string
 	ACRH   []string
+	Retry  bool // the filter in front of the CORS filter calls ProcessFilter twice for this request (a retrying filter); never set for a preflight; the model does not need to know: both containers get the same request
 	Serve  bool // through Container.ServeHTTP (the ServeMux may answer without reaching the filter chain) instead of Container.Dispatch
 }
 
@@ -115,7 +116,7 @@ func (c *Case) Human(obs []Obs) map[string]interface{} {
 	for i, r := range c.Reqs {
 		m := map[string]interface{}{"method": r.R.Method, "path": r.R.Path, "Origin": r.Origin,
 			"Access-Control-Request-Method": r.ACRM, "Access-Control-Request-Headers": r.ACRH,
-			"content_type": r.R.CT, "accept": r.R.Accept, "via": map[bool]string{true: "ServeHTTP", false: "Dispatch"}[r.Serve]}
+			"content_type": r.R.CT, "accept": r.R.Accept, "via": map[bool]string{true: "ServeHTTP", false: "Dispatch"}[r.Serve], "upstream_filter_calls_ProcessFilter_twice": r.Retry}
 		if i < len(obs) {
 			ex := []string{}
 			for _, h := range obs[i].Extra {
